@@ -123,7 +123,8 @@ def group_of(cid): return cid.rsplit('.', 1)[0] if '.' in cid else None
 def oracle_c02(line, case, stats, allc, lines):
     """chunk-boundary invariance across the members of a chunking group (checked once, at member .0)"""
     cid = case['id']; g = group_of(cid)
-    if g is None or not cid.endswith('.0') or not g.startswith('g'): return []
+    # chunking groups: g* (grouped families), u* (utf8 / utf8m: the same document under several chunkings)
+    if g is None or not cid.endswith('.0') or not (g.startswith('g') or g.startswith('u')): return []
     if line.startswith('L1 ') and ' remove=1' in line:
         # the level-1 policy toggles should_emit_content() by a call counter; when the dispatcher polls it (at lexed tags, at
         # chunk ends) then depends on chunking -- no handler of the real rewriter behaves like that (content removal follows
@@ -226,18 +227,23 @@ def oracle_c09(line, case, stats, allc, lines):
             m = re.search(rb'[^ \t\n\r\f>]*$', prefix)
             run = len(m.group(0))
             if prefix[-1:] in b' \t\n\r\f>' or p > run or p > 64:
-                errs.append('no handlers: %d bytes held back after prefix ...%r (trailing run %d)' % (p, prefix[-40:], run))
+                errs.append('no handlers: %d bytes held back after prefix of %d bytes ...%r (trailing run %d)' % (p, n, prefix[-40:], run))
     return errs[:3]
 
 def classify_c09(line, case, msg):
     if msg.startswith('no handlers'):
-        m = re.search(r"after prefix \.\.\.(b'.*'|b\".*\") \(trailing", msg)
-        tail = eval(m.group(1)).lower() if m else b''
+        m = re.search(r"after prefix of (\d+) bytes \.\.\.(b'.*'|b\".*\") \(trailing", msg)
+        tail = eval(m.group(2)).lower() if m else b''
         data = input_bytes(line).lower()
-        # the unfinished construct is a start/end tag inside foreign content on which the simulator requests the lexeme
+        prefix = data[:int(m.group(1))] if m else data
+        # the unfinished construct is a start/end tag inside foreign content on which the simulator requests the lexeme:
+        # the integration-point / breakout names in SVG and MathML, and -- in MathML only -- any name that has no hash
+        # (it could be annotation-xml)
         last_lt = tail.rfind(b'<')
         unfinished = tail[last_lt:] if last_lt >= 0 else b''
-        if re.search(rb'<(svg|math)', data) and re.match(rb'</?(font|title|desc|foreignobject|mi|mo|mn|ms|mtext|annotation-xml|[a-z][a-z0-9]*[^a-z0-9 \t\n\f\r>/])', unfinished):
+        in_math = prefix.rfind(b'<math') > prefix.rfind(b'<svg')
+        if re.search(rb'<(svg|math)', prefix) and (re.match(rb'</?(font|title|desc|foreignobject|mi|mo|mn|ms|mtext|annotation-xml)', unfinished)
+                or (in_math and re.match(rb'</?([a-z][a-z0-9]*[^a-z0-9 \t\n\f\r>/]|[a-z][a-z0-9]{12})', unfinished))):
             return 'RequestLexemePending'
     return None
 
@@ -309,6 +315,10 @@ def oracle_c11(line, case, stats, allc, lines):
         if r == 'ok':
             if nbail: errs.append('bail-out handler ran although the call succeeded')
             continue
+        # each flag covers its own error kind: without an injected handler failure (and without streaming handlers that can refuse
+        # their input) no call can fail with a content-handler error -- a memory failure reported as one would be recovered by the wrong flag
+        if r == 'err:handler' and 'fail' not in d and 'ss:' not in line:
+            errs.append('a call failed with a content handler error although no handler fails in this configuration (limit %s, flags bm=%s bh=%s)' % (d.get('mem'), d.get('bm'), d.get('bh')))
         graceful = (r == 'err:mem' and flag(d, 'bm')) or (r == 'err:handler' and flag(d, 'bh'))
         stats['failures'] = stats.get('failures', 0) + 1
         if r == 'err:amb': graceful = False
@@ -568,6 +578,15 @@ def oracle_c08(line, case, stats, allc, lines):
                         n = bytes.fromhex(o[3:].split(':')[0]); bad = n == b'' or any(ch in n for ch in b' \t\n\r\f/>=')
                         stats['set_attribute'] = stats.get('set_attribute', 0) + 1
                         if bad != (r == 'e'): errs.append('set_attribute(%r) returned %s' % (n, r))
+    # rejected setters change nothing: when every operation of every handler invocation was refused, the output is the input, byte for byte
+    all_res = [h.split(' ')[2][2:] for c in case['calls'] for h in c.get('handlers', []) if len(h.split(' ')) > 2 and h.split(' ')[2].startswith('r=')]
+    only_setters = all(re.fullmatch(r'((sa|tn|st):[0-9a-f:]*,?)*', x or '') for x in scripts_el + scripts_cm)
+    if only_setters and all_res and all(set(r) <= {'e'} for r in all_res) and any(r for r in all_res) and ' fail=' not in line and ' mem=' not in line \
+       and not any(t.startswith('doc=') and t[4:].split('~')[3] not in ('-', '') for t in line.split(' ')) \
+       and not any(t.startswith('sel=') and t[4:].split('~')[4] not in ('-',) and t[4:].split('~')[4][2:] != '' for t in line.split(' ')):
+        stats['only_rejected_setters'] = stats.get('only_rejected_setters', 0) + 1
+        if all(obslog.norm_res(c['res']) == 'ok' for c in case['calls']) and total_out(case) != input_bytes(line).hex():
+            errs.append('every setter call was refused, yet the output differs from the input (a refused call must leave the token unchanged)')
     # validated names / values / comment text were used: re-parsing the output must give the reference editor's token structure
     # (the original tokens plus exactly the renamed tag, attribute, comment): the re-tokenisation comparison of oracle_c07
     if re.search(r'(tn:|sa:|st:|sn:)', line):
@@ -694,6 +713,9 @@ def c04_observed(line, case):
     return got, el_to_sel, complete
 
 def oracle_c04(line, case, stats, allc=None, lines=None):
+    if line.startswith('L3 '):
+        stats['encoded_cases'] = stats.get('encoded_cases', 0) + 1
+        return [x[len('X c04-bad '):] for x in case.get('extra', []) if x.startswith('X c04-bad')][:2]
     cid = case['id']
     if cid not in SPEC or 'error' in SPEC[cid]: return []
     got, el_to_sel, complete = c04_observed(line, case)
